@@ -13,6 +13,14 @@ PROPS = {
     "C15": {
         "engines": [{"name": "faultseq"}],
         "level": "fault_enumeration",
+        "technique": "deterministic fault injection at the Signer / afero.Fs / io.ReaderAt seams: exhaustive single-fault enumeration per recorded dependency-call sequence + seeded multi-fault sequences, supervised worker as crash observer",
+        "design_ref": "DESIGN.md section 3 (C15), 2.3",
+        "level_text": ("For every operation instance the single-fault space (every call position x every legal failure kind) is enumerated completely, so within "
+                       "the instance catalogue a missed error path cannot hide; multi-fault and persistent-fault sequences are sampled. This is the natural "
+                       "level for a property that is itself quantified over fault sequences; what remains unexplored is the instance catalogue "
+                       "(other images, payloads) and k-fault combinations beyond the sample."),
+        "level_note": ("Trusted: the seam wrappers in /verif/sim/seams.go, the fault-free run as reference result, the worker write-ahead record for "
+                       "attributing process deaths. Assumes faults are non-EOF errors; ioctl-based immutable-flag handling is not simulated."),
         "rule": ("Operation instances (sign blob/image/variable, write variable on both APIs, signed update, read variable on both APIs and "
                  "typed accessors, parse/hash/sign/verify image on fixtures and seeded generated images) are first run fault-free with "
                  "counting seams to record the dependency-call sequence; then one case per (position k, fault kind[, byte count]) for "
@@ -27,4 +35,36 @@ PROPS = {
             "efi/efi.go top-level Get* helpers are not exercised (they deliberately map absent/EOF to an empty database)",
             "the immutable-flag ioctl path talks to the kernel directly and is outside the simulated world"],
     },
+}
+
+
+ENGINE_KINDS = {
+    "faultseq": "fault-plane simulation: counting/injecting crypto.Signer, afero.Fs, io.ReaderAt; exhaustive single-fault replay per operation instance",
+    "fstrace": "recording simulated efivarfs with a firmware model; trace oracle at the filesystem boundary",
+    "varstore": "seeded write/read histories on the in-memory store against a register model (+ porcupine)",
+    "dbhist": "seeded edit histories against an ordered-entry reference model; encode/decode as restart",
+    "varsign": "simulated clock (synctest) x zone configurations; byte-exact layout and independent CMS verification",
+    "signhist": "seeded signing histories on generated PE images under a simulated clock; independent PE/CMS readers as oracle",
+    "sched": "cooperative seeded scheduler over real goroutines parked at yield points; sequential-history and race-detector modes",
+}
+
+NOT_APPLICABLE = {
+    "C01": "the digest is a pure function of the image bytes; no schedule, clock, fault or history enters the verdict, so there is nothing for a simulator to decide (differential testing against a spec implementation is the fitting technique)",
+    "C02": "soundness of Verify is a pure function of (image bytes, certificate) over adversarially constructed inputs; forging is input construction, not an environment fault",
+    "C03": "claimed in DESIGN.md (engine signhist); check not built yet",
+    "C04": "same as C02 for (*PKCS7).Verify: a pure verdict over crafted blobs",
+    "C05": "acceptance of produced signatures by third-party verifiers is a pure input->output conformance claim; the only seam (signing time) does not enter the verdict",
+    "C06": "claimed in DESIGN.md (engine varsign); check not built yet",
+    "C07": "encode/decode inverse is a pure codec property",
+    "C08": "accept/reject of a byte string by the decoder is pure; the decoder reads its io.Reader once, front to back, so EOF at instant k is exactly input of length k and a fault schedule degenerates to input mutation",
+    "C09": "claimed in DESIGN.md (engine dbhist); check not built yet",
+    "C10": "descriptor/WIN_CERTIFICATE round-trip and consumed-length accounting are pure codec properties",
+    "C11": "claimed in DESIGN.md (engine fstrace); check not built yet",
+    "C12": "claimed in DESIGN.md (engine varstore); check not built yet",
+    "C13": "for every byte string ... never crash is input-space robustness (fuzzing); dressing mutation in fault vocabulary would not change what is decided",
+    "C14": "as C13, and its second half is a static inventory of termination call sites (program analysis)",
+    "C16": "depends on the option matrix of third-party producers at build time, not on any runtime behaviour of an environment",
+    "C17": "pure conversions",
+    "C18": "pure decoding and the composition of two pure calls on a fixed store",
+    "C19": "claimed in DESIGN.md (engine sched); check not built yet",
 }
